@@ -197,6 +197,20 @@ pub fn run(ctx: &mut Ctx) {
         }
     }
 
+    // the same shape with strings that spell numbers ("10" < "9" as strings; they are not numbers)
+    for n in [24usize, 40, 60] {
+        let mut v: Vec<Value> = Vec::new();
+        for k in 0..n {
+            v.push(if k % 2 == 0 { i(((k * 7) % 13) as i64) } else { s(["10", "9", "2", "1.5"][k % 4]) });
+        }
+        for _ in 0..10 {
+            shuffle(&mut rng, &mut v);
+            let a = arr(v.clone());
+            g.case("d8-int-numstr", "sort", &a, &[]);
+            g.case("d8-int-numstr", "jekyll_sort", &a, &[]);
+        }
+    }
+
     // ---- comparators that stay inconsistent after the repair, because `partial_cmp` itself is
     // inconsistent within one kind (C11 territory): fixed witnesses, judged by the spec only ----
     let residual: Vec<(&str, Vec<Value>)> = vec![
